@@ -554,6 +554,12 @@ func scenarios() []scenario {
 		scenario{"ciexyz/Lab both ways", par(
 			func() string { return fmt.Sprint(ciexyz.Color{X: 0.2, Y: 0.3, Z: 0.1}.ToLAB(ciexyz.D50)) },
 			func() string { return fmt.Sprint(ciexyz.ColorFromLAB(cielab.Color{L: 50, A: 20, B: -30}, ciexyz.D65)) })},
+		scenario{"ciexyz/two ToLAB with different reference whites", par(
+			func() string { return fmt.Sprint(ciexyz.Color{X: 0.2, Y: 0.3, Z: 0.1}.ToLAB(ciexyz.D50)) },
+			func() string { return fmt.Sprint(ciexyz.Color{X: 0.4361, Y: 0.2225, Z: 0.0139}.ToLAB(ciexyz.D65)) })},
+		scenario{"ciexyz/two ColorFromLAB with different reference whites", par(
+			func() string { return fmt.Sprint(ciexyz.ColorFromLAB(cielab.Color{L: 50, A: 20, B: -30}, ciexyz.D65)) },
+			func() string { return fmt.Sprint(ciexyz.ColorFromLAB(cielab.Color{L: 70, A: -40, B: 25}, ciexyz.D50)) })},
 		scenario{"ciexyz/two adaptations between the same pair of white points", par(
 			func() string {
 				return fmt.Sprint(ciexyz.AdaptBetweenXYYWhitePoints(ciexyy.D65, ciexyy.D50).Apply(ciexyz.Color{X: 0.3, Y: 0.4, Z: 0.5}))
